@@ -11,21 +11,10 @@ SI = 'tracklib.core.spatial_index.SpatialIndex'
 NET = 'tracklib.core.network.Network'
 
 EXPLANATION = (
-    "Static analysis of SpatialIndex and Network.addEdge / Network.bbox.  (Q) the bodies of __init__, addFeature, __getCell, "
-    "__cellsCrossSegment, request, neighborhood and __neighboringcells are interpreted by tlint.orders (an AST interpreter over "
-    "abstract objects; the repository code is never imported or executed) on a finite case domain: a non-square 3 x 2 grid of unit "
-    "cells each holding one marker, vertices on the integrality classes {k, k+1/2} including the closed upper border, segments "
-    "strictly inside a cell, tracks of three vertices, window radii 0..3, five data extents for the constructor; every query form "
-    "must return the data of every cell met / within the window (no false negatives), registration must reach every such cell and "
-    "the allocated grid must cover the extent.  (B/I) the cell bounding box of a segment is evaluated on the same classes: every "
-    "cell between the floored end points is examined and none outside the grid.  (M) one coordinate->cell formula, no private copy. "
-    "(U) units = round(d/E + B) + c is decomposed symbolically: the rounding never loses a started cell and E is at most the smaller "
-    "cell side on every order class of (dX, dY).  (I) __getCell admits the closed extent.  (K) the bookkeeping key tested is the key "
-    "recorded.  (T) an edge added after the index exists is registered under its own position; the extent of a network comes from the "
-    "edge geometries.")
+    'Static analysis of SpatialIndex and Network.createSpatialIndex / addEdge / bbox by interpretation of the source (tlint.orders; the repository is never imported or executed).  (Q) __init__, addFeature, __getCell, __cellsCrossSegment, request, neighborhood and __neighboringcells on a non-square 3 x 2 grid of unit cells each holding one marker, vertices on the integrality classes {k, k+1/2} including the closed upper border, segments strictly inside a cell, tracks of three vertices, window radii 0..3, six data extents for the constructor: every query form returns the data of every cell met / within the window (no false negatives), registration reaches every such cell, the allocated grid covers the extent.  (S) the same obligations on grids 2x5, 1x4, 4x1 and 3x3: windows of every radius up to beyond the larger dimension, registration along every row, every column and a U shape, two features sharing cells.  (N) a network and its index: straight, hairpin and loop networks, edges added after the index was built, point queries on every edge return that edge under its own position.  (U) units = round(d/E + B) + c decomposed symbolically: the rounding never loses a started cell and E is at most the smaller cell side on every order class of (dX, dY).')
 ASSUMPTIONS = ["query points and vertices inside the index extent", "the straddle test isSegmentIntersects is interpreted as written; its completeness for touching/collinear cases in real geometry is not decided",
                "the case domain is exhaustive for the dependence on integrality class, border position and grid shape, and bounded (3 x 2 cells, 3 vertices, radius <= 3) otherwise"]
-TECHNIQUE = "abstract interpretation of the method bodies on a finite case domain (F3/F4), symbolic rounding/polarity decomposition (F2), path rules for the closed extent and the bookkeeping key (F6), provenance of the network extent (F8)"
+TECHNIQUE = "abstract interpretation of the SpatialIndex / Network method bodies by the checker's AST interpreter on finite case domains (grid shapes x integrality classes of the vertices x window radii; networks with curved and late edges) (bounded), symbolic rounding/polarity decomposition of the distance-to-units conversion (F2, all inputs)"
 
 
 def vr(v):
